@@ -35,28 +35,29 @@ type specFn struct {
 }
 
 type Contract struct {
-	Key        string // e.g. schema.IntSchema.Serialize ; for interfaces schema.Type.Unserialize
-	Pkg        string
-	IsIface    bool
-	Params     []string // names bound positionally to receiver+params
-	Results    []string
-	Requires   []*Expr
-	Scope      []*Expr // domain restriction of the functional clauses: assumed when they are checked; callers get scope ==> ensures
-	Ensures    []*Expr
-	Checks     []*Expr // postconditions that mention internal variables (witnesses): verified, not exported to callers
-	Names      []*Expr // definitional clauses: assumed at call sites, never checked (they name the verdict of a deterministic operation)
-	Assigns    []*Expr
-	HasAssigns bool
-	LoopInv    map[int][]*Expr
-	Decreases  []*Expr
-	Arith      bool // arith checked
-	Pure       bool
-	File       string
-	Line       int
-	Counted    bool // every call increments ghost("calls:<Key>")
-	Trusted    bool // contract is assumed, body not verified (listed in evidence)
-	NoFrame    bool
-	Ghost      map[string]string
+	Key           string // e.g. schema.IntSchema.Serialize ; for interfaces schema.Type.Unserialize
+	Pkg           string
+	IsIface       bool
+	Params        []string // names bound positionally to receiver+params
+	Results       []string
+	Requires      []*Expr
+	Scope         []*Expr // domain restriction of the functional clauses: assumed when they are checked; callers get scope ==> ensures
+	Ensures       []*Expr
+	Checks        []*Expr // postconditions that mention internal variables (witnesses): verified, not exported to callers
+	Names         []*Expr // definitional clauses: assumed at call sites, never checked (they name the verdict of a deterministic operation)
+	Assigns       []*Expr
+	HasAssigns    bool
+	LoopInv       map[int][]*Expr
+	Decreases     []*Expr
+	Arith         bool // arith checked
+	Pure          bool
+	File          string
+	Line          int
+	Deterministic bool // output must not depend on map iteration order
+	Counted       bool // every call increments ghost("calls:<Key>")
+	Trusted       bool // contract is assumed, body not verified (listed in evidence)
+	NoFrame       bool
+	Ghost         map[string]string
 }
 
 type Lemma struct {
@@ -94,7 +95,7 @@ type ContractSet struct {
 }
 
 var clauseKeywords = map[string]bool{"func": true, "interface": true, "spec": true, "abstract": true, "requires": true, "ensures": true,
-	"assigns": true, "loop": true, "decreases": true, "arith": true, "pure": true, "lemma": true, "trusted": true, "noframe": true, "invariant": true, "nonnil": true, "names": true, "ospec": true, "checks": true, "counted": true, "axiom": true, "monitor": true, "scope": true}
+	"assigns": true, "loop": true, "decreases": true, "arith": true, "pure": true, "lemma": true, "trusted": true, "noframe": true, "invariant": true, "nonnil": true, "names": true, "ospec": true, "checks": true, "counted": true, "axiom": true, "monitor": true, "scope": true, "deterministic": true}
 
 func loadContracts(files []string) (*ContractSet, error) {
 	cs := &ContractSet{funcs: map[string]*Contract{}, ifaces: map[string]*Contract{}, specs: map[string]*specFn{}, invs: map[string][]*TypeInv{}, nonnil: map[string]bool{}}
@@ -302,6 +303,10 @@ func (cs *ContractSet) loadFile(path string) error {
 		case "counted":
 			if cur != nil {
 				cur.Counted = true
+			}
+		case "deterministic":
+			if cur != nil {
+				cur.Deterministic = true
 			}
 		case "noframe":
 			if cur != nil {
